@@ -254,7 +254,7 @@ func WithFragmentPathPercentEncodeSet(encodeSet *PercentEncodeSet) ParserOption 
 // This API is EXPERIMENTAL.
 func WithSpecialFragmentPathPercentEncodeSet(encodeSet *PercentEncodeSet) ParserOption {
 	return newFuncParserOption(func(o *parserOptions) {
-		o.fragmentPercentEncodeSet = encodeSet
+		o.specialFragmentPercentEncodeSet = encodeSet
 	})
 }
 
